@@ -12,7 +12,8 @@ ENTRY = dict(
                   "c10_idle_observable", "c10_idle_observable_problem", "c10_facts"],
         allowed_axioms=[],
         facts=["value_error_sites", "c10_separate_calls", "c10_problem_calls", "c10_idle_group_removed",
-               "c10_auto_ignores_qpd2", "c10_keep_idle_default", "c10_label_suffix"],
+               "c10_auto_ignores_qpd2", "c10_keep_idle_default", "c10_label_suffix",
+               "c10_relabel_resets_definition"],
         harness="c10",
         level_text="Unbounded theorems (all circuit lengths, qubit counts, label sequences, Pauli lists; by induction, no sampling) "
                    "about the executable model of utils/transforms.py (barrier splitting with live-index iteration, union-find "
